@@ -621,6 +621,9 @@ EXPLANATION = (
 EXPLANATION += (
     ' R8 (= C07-R2c): the look-ahead that recognises the `{{` / `}}` escapes in a template is bounded by exactly the position it reads, so the escapes also work at the very end of a string.'
 )
+EXPLANATION += (
+    ' R9: wherever a function tests an index value for being whole, every Index-out-of-bounds answer it gives is dominated by that test (a negative fraction is an Invalid index for reads and writes alike).'
+)
 ASSUMPTIONS = ["reference tables in /verif/reference/language.json state the documented surface (docs/*.md); rows marked 'confirmed on ec803c6' are what the suite and the examples assume"]
 TRUSTED = ["rustc nightly HIR/MIR", "nsx exporter", "nsverif partial evaluator and pattern evaluator"]
 NONTRIVIAL = "one obligation per table cell / operator / path-shape clause; distinct = distinct cell"
